@@ -37,11 +37,14 @@ static void check_case(const e3::Entry& e, const std::string& F, const np::Heade
 	std::string FU = relabel(F, h, subset, &hu);
 	std::set<std::string> unknown;
 	for (auto t : subset) unknown.insert(hu.types[t]);
-	for (int mode = 5; mode >= 0; mode--) {
+	// modes 0..3: raw/default save of the model / of a copy; modes 4..9: an explicit call of one of the guarded
+	// operations before the save (4,5 SetShapeOrder(reversed names); 6,7 PrettySortBlocks; 8,9 Optimize)
+	for (int mode = 9; mode >= 0; mode--) {
 		const int raw = mode & 1;
-		const bool via_copy = (mode & 2) != 0; // the loaded model is copied and the COPY is saved: it must protect unknown blocks just the same
-		const bool reorder = (mode & 4) != 0;  // SetShapeOrder with the reversed shape names before the save: nothing may move while unknown blocks are present
-		J cj = case_of(e, h, subset, raw == 1).set("via_copy", via_copy).set("reorder", reorder);
+		const bool via_copy = mode < 4 && (mode & 2) != 0; // the loaded model is copied and the COPY is saved: it must protect unknown blocks just the same
+		const int pre = mode < 4 ? 0 : mode / 2 - 1;		  // 1 SetShapeOrder, 2 PrettySortBlocks, 3 Optimize: nothing may move or go while unknown blocks are present
+		const bool reorder = pre != 0;
+		J cj = case_of(e, h, subset, raw == 1).set("via_copy", via_copy).set("reorder", reorder).set("pre", pre);
 		vf::set_inflight(cj.dump());
 		st.add("evaluations");
 		std::string what = e.keyname + " with {" + subset_str(h, subset) + "} unknown, " + (raw ? "raw" : "default") + " save" + (via_copy ? " of a copy of the model" : "");
@@ -49,7 +52,7 @@ static void check_case(const e3::Entry& e, const std::string& F, const np::Heade
 		int rc = s1::load(n, FU);
 		if (rc != 0) { st.violation("load-fails", what + ": Load returns " + std::to_string(rc), cj); continue; }
 		if (!n.HasUnknown()) { st.violation("unknown-not-detected", what + ": HasUnknown() is false", cj); continue; }
-		if (reorder) {
+		if (pre == 1) {
 			std::vector<std::string> names;
 			for (auto sh : n.GetShapes()) names.push_back(sh->name.get());
 			if (names.size() < 2) continue;
@@ -57,6 +60,16 @@ static void check_case(const e3::Entry& e, const std::string& F, const np::Heade
 			n.SetShapeOrder(names);
 			st.add("shape_orders_applied");
 			what += ", after SetShapeOrder(reversed)";
+		}
+		else if (pre == 2) {
+			n.PrettySortBlocks();
+			st.add("explicit_sorts_applied");
+			what += ", after PrettySortBlocks()";
+		}
+		else if (pre == 3) {
+			n.Optimize();
+			st.add("explicit_optimizes_applied");
+			what += ", after Optimize()";
 		}
 		NifFile ncopy;
 		if (via_copy) ncopy = n;
